@@ -3,7 +3,7 @@
 import json, os, shutil, subprocess, sys
 wid, name, prop, caught = sys.argv[1:5]
 needs = " ".join(sys.argv[5:])
-src = "/tmp/mut3/" + wid
+src = os.environ.get("MUTROOT", "/tmp/mut4") + "/" + wid
 dst = "/verif/seeded/" + name
 os.makedirs(dst, exist_ok=True)
 shutil.copy(src + "/mutation.diff", dst + "/patch.diff")
